@@ -169,9 +169,30 @@ namespace
                 }
             std::vector<double> h = flat_vec(hout);
             Digest DU = state_digest(*U.graph, h, single_final, src);
-            // (2) fresh graph on a fresh grid object with the same current inputs
+            // (2) fresh graph with the same current inputs: on a fresh grid object, or sharing the long-lived
+            // graph's grid object (several graphs on one grid share its neighbour cache)
             auto fresh_grid = make_grid(env.g);
-            GraphBundle F = build_graph(*fresh_grid, ops);
+            const bool share_grid = rng.chance(0.3);
+            if (share_grid)
+                R.count("c09.fresh_graph_on_shared_grid");
+            GraphBundle F = build_graph(share_grid ? *env.grid : *fresh_grid, ops);
+            // the getters of the long-lived graph reflect the inputs in force
+            {
+                auto bl = U.graph->base_levels();
+                std::sort(bl.begin(), bl.end());
+                bl.erase(std::unique(bl.begin(), bl.end()), bl.end());
+                if (cur.custom_bl && bl != cur.bl)
+                    R.violation("C09", "base_levels_getter", JObj().raw("operators", ops_json(ops)).s("detail", "base_levels() differs from the set last given to set_base_levels").str());
+                if (!cur.mask.empty())
+                {
+                    auto mk = U.graph->mask();
+                    bool okm = mk.size() == cur.mask.size();
+                    for (std::size_t i = 0; okm && i < mk.size(); ++i)
+                        okm = (mk.flat(i) ? 1 : 0) == (cur.mask[i] ? 1 : 0);
+                    if (!okm)
+                        R.violation("C09", "mask_getter", JObj().raw("operators", ops_json(ops)).s("detail", "mask() differs from the mask last given to set_mask").str());
+                }
+            }
             if (cur.custom_bl)
                 F.graph->set_base_levels(cur.bl);
             if (!cur.mask.empty())
